@@ -39,6 +39,7 @@ type GenSpec struct {
 	MinSignedPerWindowPct int64    `json:"min_signed_pct"`
 	SlashDowntimePct      int64    `json:"slash_downtime_pct"`   // percent * 1 (e.g. 1 = 1%)
 	SlashDoubleSignPct    int64    `json:"slash_doublesign_pct"` // percent
+	SlashDowntimePpm      int64    `json:"slash_downtime_ppm"`   // parts per million; overrides SlashDowntimePct when non-zero
 	MaxJailedBlocks       int64    `json:"max_jailed_blocks"`
 	NodeMaxChains         int64    `json:"node_max_chains"`
 	DAOAllocation         int64    `json:"dao_allocation"`
@@ -146,6 +147,9 @@ func BuildGenesis(spec GenSpec) app.GenesisState {
 	}
 	if spec.SlashDowntimePct != 0 {
 		p.SlashFractionDowntime = sdk.NewDecWithPrec(spec.SlashDowntimePct, 2)
+	}
+	if spec.SlashDowntimePpm != 0 {
+		p.SlashFractionDowntime = sdk.NewDecWithPrec(spec.SlashDowntimePpm, 6)
 	}
 	if spec.SlashDoubleSignPct != 0 {
 		p.SlashFractionDoubleSign = sdk.NewDecWithPrec(spec.SlashDoubleSignPct, 2)
